@@ -45,12 +45,22 @@ PROPS = {
             'digit >= radix or no digit at all',
             'radix_and_digits: the prefix table incl. legacy "00"; the `&rest[2..]` slice is in range and on a char boundary',
             'decode_val: RFC 4648 alphabet; SfTag::can_parse_into_string table',
+            'decode_base64_yaml (unit base64): Ok(v) iff the text with ASCII whitespace removed is STRICT CANONICAL RFC 4648 base64 '
+            '(length a multiple of 4, alphabet only, `=` padding only in the last quantum, unused low bits zero) and v is exactly its '
+            'decoding; otherwise InvalidBinaryBase64 - for texts of any length',
+            'typed entry points deserialize_i8..i128 / u8..u128 (unit typed): consume exactly one scalar, parse it with the signed / '
+            'unsigned parser of exactly that width and with cfg.legacy_octal_numbers, and hand exactly that value to the visitor',
+            'deserialize_bytes (unit typed): `!!binary` scalar -> its strict base64 decoding; sequence -> each element the exact u8 '
+            'value of its integer scalar under the configured options, up to and including the closing SeqEnd; anything else is an error',
         ],
         not_covered=[
-            'float values (str::parse::<f64> is std), bool/null tables and decode_base64_yaml (iterator adapters; Kani bounded stand-in planned)',
-            'what str::trim removes (uninterpreted spec_trim); which parser a deserialize_* method picks; deserialize_any inference order',
+            'float values (str::parse::<f64> is std), bool/null tables (string comparisons are std)',
+            'what str::trim removes (uninterpreted spec_trim); deserialize_bool/f32/f64/char/str/string; deserialize_any inference order',
         ],
-        assumptions=['str::trim / strip_prefix / starts_with / slicing behave as their shim contracts say (contracts/str.shim.rs)'],
+        assumptions=['str::trim / strip_prefix / starts_with / slicing behave as their shim contracts say (contracts/str.shim.rs)',
+                     'iterator chains in decode_base64_yaml (bytes().filter(non-whitespace).collect(), rev().take_while(==b\'=\').count()) behave as their shims say (contracts/base64.shim.rs)',
+                     'serde\'s `impl Deserialize for u8` calls deserialize_u8 with a visitor returning its argument (contracts/typed.shim.rs serde_u8_via_yaml_deserializer)',
+                     'the serde Visitor is opaque: its result is an uninterpreted function of the value it is given'],
     ),
     'C04': dict(
         covered=[
@@ -83,8 +93,10 @@ PROPS = {
             'LiveEvents::record: an event is appended to every open recording frame (all but a freshly seeded one), nothing else changes',
             'bump_depth_on_start / bump_depth_on_end: depth bookkeeping; exactly the frames whose depth reaches 0 (only at the top) are finalised and stored under their anchor id with their recorded buffer, every other anchor slot is untouched',
             'ensure_anchor_capacity never loses a recorded anchor; reset_document_state clears every anchor slot',
+            'the REAL body of next_impl (as next_impl__body): no reachable panic, both loops terminate, every callee precondition holds, and the pump invariant live_inv is preserved on every Ok (recording frames nested, each inner buffer a suffix of the enclosing one, every delivered event appended to every open frame, replay depth and totals within AliasLimits, budget consistent)',
+            'scalar arm: the delivered scalar is the parsed one (text, anchor id, location, style) - except the documented special case, which is recorded as a known finding (anchored empty quoted scalar re-styled as plain)',
         ],
-        not_covered=['LiveEvents::next_impl itself (alias arm, replay loop): its contract is assumed in this revision (prophecy view pump_future); the lemma delivered == expand(raw)',
+        not_covered=['the functional meaning of the pump as a whole: callers of next_impl (next/peek) see an ASSUMED prophecy contract (pump_future); the lemma delivered == expand(raw) is not proved',
                      'that the deserialized value is a function of the delivered event stream only; saphyr-parser anchor id assignment'],
         assumptions=['anchor ids of open frames are pairwise distinct and small (parser contract; stated as preconditions)'],
     ),
@@ -93,33 +105,42 @@ PROPS = {
             'LiveEvents::next / peek: a stored reader error is reported as Error::IOError before any event (not even a buffered look-ahead) is handed out',
             'LiveEvents::finish: a stored reader error is reported at the end; otherwise a delayed budget breach is surfaced',
             'io_error: Ok exactly when the shared cell is empty',
+            'an error stored while pumping is never consumed by next/peek themselves: it stays in the cell for finish (or the next call) to report',
             'ChunkedChars::next: it signals end of input only when nothing is left, or after storing an error in the shared cell (reader error of ANY kind, EOF inside a code point, invalid lead byte / sequence, byte cap exceeded); total_bytes never exceeds the cap; at most 4 bytes are requested per character',
         ],
         not_covered=['BufReader / decoder read-ahead; that every reader entry point ends with finish(); writer side'],
-        assumptions=['the shared error cell is read once at the start of next/peek/finish (interior mutability is modelled as a value fixed per call)'],
+        assumptions=['interior mutability of the shared error cell is made explicit (rule R28: io_error takes &mut self and consumes the cell); the reader may fill the cell during any pump step'],
     ),
     'C11': dict(
         covered=[
             'reset_document_state: every anchor slot None, replay and recording stacks empty, alias counters 0, seen_doc_end false',
+            'next_impl body: at EVERY DocumentStart and DocumentEnd the per-document state is clear when the arm is left (in-body obligations C11:document_start/end_clears_per_document_state)',
             'skip_to_next_document: consumes raw items up to and including the first DocumentStart (true) or scan error / StreamEnd / exhaustion (false), terminates, drops look-ahead and replay state, leaves a clean per-document state and restarts the budget',
         ],
-        not_covered=['next_impl document arms (assumed contract); ReadIter::next; equality with per-document deserialization'],
+        not_covered=['ReadIter::next; equality with per-document deserialization'],
         assumptions=['parser spans are well formed (ordered marks below 4 GiB)'],
     ),
     'C17': dict(
         covered=[
             'sanitize_terminal_snippet_preserve_len: the resulting bytes contain no C0 control other than \\n/\\t, no DEL and no UTF-8 encoded C1 control, have the same length, and every byte that was not an offender (or the second byte of a C1 pair) is unchanged, for strings of any length',
             'is_terminal_snippet_clean(t) is true exactly when t is terminal-safe in that sense',
+            'col_to_byte_offset_in_line: Some(i) iff 1 <= col <= chars+1 and i is exactly the byte offset of that character (unit crop)',
+            'line_starts: exactly 0 and the offset after every line feed, in order, all on char boundaries',
+            'crop_line_by_cols: the result is exactly the requested column window of the line, with an ellipsis on each clipped side, and the returned LineCrop matches (start byte, prefix bytes)',
+            'crop_source_window: every string slice is in range and on a char boundary, every index in bounds, no overflow; the vertical window holds the error line and at most two lines either side; on the error line nothing left of error column + radius is removed',
         ],
         not_covered=['UTF-8 validity of the sanitised bytes (the lossy fallback is therefore not proved dead)',
-                     'window / column cropping (crop_source_window, crop_window_text, crop_line_by_cols): string slicing by char columns, outside the verifier; reflected keys, formatter messages, miette'],
-        assumptions=['String::into_bytes / from_utf8 shims (contracts/snippet.shim.rs)'],
+                     'crop_window_text (render-time crop with span rebasing), Snippet::fmt_or_fallback, annotate-snippets rendering; reflected keys, formatter messages, miette; ring_reader trimming'],
+        assumptions=['String::into_bytes / from_utf8 shims (contracts/snippet.shim.rs)',
+                     'str slicing / find / strip / char_indices / chars().count() shims (contracts/crop.shim.rs): slicing panics exactly when an end is not a char boundary or the range is inverted',
+                     'UTF-8 self-synchronisation (an ASCII byte of a valid encoding is a whole character) is ASSUMED, not proved (axiom_ascii_byte_is_a_char); a str has at most isize::MAX bytes'],
     ),
     'C05': dict(
         covered=[
             'cursor discipline of the format side: take_scalar_event / take_scalar_cow_event (exactly one scalar, its text, tag and location), expect_seq_start / expect_map_start (exactly one event of that kind), peek_anchor_id (never consumes)',
             'VA::expect_map_end: closes exactly one mapping or fails; VA::unit_variant accepts only `Variant`, `{Variant}` closing at once, or `{Variant: <null-like>}`',
             'enforce_single_document_and_finish: succeeds only if nothing is left after the root value (or only garbage after an explicit document end)',
+            'typed integer entry points and deserialize_bytes consume exactly the events of their own node (one scalar; or SeqStart..SeqEnd) before the visitor runs',
         ],
         not_covered=['arity / field-name checks of serde-generated visitors; deserialize_option / deserialize_unit / deserialize_enum bodies (generic over Visitor); the inline copies of the leftover check in src/lib.rs entry points; the reference interpreter comparison'],
         assumptions=['scalar_is_nullish is used as an uninterpreted function of text and style'],
@@ -128,8 +149,9 @@ PROPS = {
         covered=[
             'write_quoted: for every string the emitted text is `"` + the YAML 1.2 escape of every character + `"` (named escapes, \\xHH for the remaining C0/C1/DEL, \\uFEFF for the BOM, \\N \\L \\P for NEL/LS/PS); no character that needs escaping is ever written raw (lemma_escape_is_safe)',
             'write_single_quoted: `\'` + the text with every single quote doubled + `\'`',
+            'first_line_leading_spaces: the number of leading spaces of the first line that is not empty (blank-only lines count as content), 0 if there is none',
         ],
-        not_covered=['plain-safety predicates (is_plain_safe, is_plain_value_safe, is_numeric_looking regex), block scalar selection / indentation and chomping indicators (serialize_str, first_line_leading_spaces, write_folded_block), float text (zmij), the reader side of the round trip',
+        not_covered=['plain-safety predicates (is_plain_safe, is_plain_value_safe, is_numeric_looking regex), block scalar selection and chomping indicators (serialize_str, write_folded_block), float text (zmij), the reader side of the round trip',
                      'observed on the pinned tree and NOT detected by any contract here: strings with a trailing blank and block-scalar indentation indicators in nested positions do not round-trip (reported by an independent reviewer while seeding C12)'],
         assumptions=['fmt::Write is an append-only sink (contracts/quoting.shim.rs); write! with {:02X}/{:04X} prints upper-case hex; char::is_control is category Cc'],
     ),
@@ -145,7 +167,7 @@ PROPS = {
                 not_covered=['heap bytes (no allocator model)'], assumptions=[]),
 }
 
-NOTES = ('See DESIGN.md. Genuine defects repaired in /repo by fix: commits 0126e05 (F2), 956dd0f (F1a), a6603bd (F7); '
+NOTES = ('See DESIGN.md. Genuine defects repaired in /repo by fix: commits 0126e05 (F2), 956dd0f (F1a), a6603bd (F7), 6309633 (F1b), 0bae366 (F9), 73b31ba (F3/F4), 64c447b (F5); '
          'recorded in known_findings.txt. Exit 2 (UNDECIDED) is used for tool limits / lost anchors and is never an alarm.')
 
 # properties not claimed (kept current; a property moves out of here when a unit starts carrying it)
